@@ -17,6 +17,7 @@ Each variant applies ONE local, behaviour-preserving rewrite to ONE site of /rep
   T15 if a and b: X   (no else)     ->  if a:\n if b: X
   T17 map(lambda v: E, xs)          ->  (E for v in xs) ;  list(filter(lambda v: P, xs)) -> [v for v in xs if P]
   T20 return A if c else B          ->  if c: return A\n return B
+  T40 len(x) > 0  ->  len(x) != 0   |  len(x) == 0  ->  len(x) < 1   |  len(x) > n  ->  len(x) >= n + 1
   T30 def f(...): BODY              ->  def f(...): logger.debug("entering f"); BODY      (modules that define `logger`)
   T32 every occurrence of one private name `_x` (attribute, method, function, module constant) in the package
                                     ->  `_x_renamed`   (consistent rename; tolerated answers: 0 or 2 "anchor vanished")
@@ -122,6 +123,9 @@ def candidates(tree: ast.Module) -> List[Tuple[str, ast.AST]]:
             out.append(("T17", n))
         if isinstance(n, ast.Return) and isinstance(n.value, ast.IfExp):
             out.append(("T20", n))
+        if (isinstance(n, ast.Compare) and len(n.ops) == 1 and isinstance(n.left, ast.Call) and isinstance(n.left.func, ast.Name) and n.left.func.id == "len"
+                and isinstance(n.comparators[0], ast.Constant) and isinstance(n.comparators[0].value, int) and isinstance(n.ops[0], (ast.Gt, ast.Eq, ast.NotEq, ast.Lt, ast.GtE, ast.LtE))):
+            out.append(("T40", n))
         if isinstance(n, (ast.FunctionDef, ast.AsyncFunctionDef)) and any(isinstance(b, ast.Assign) and any(isinstance(t, ast.Name) and t.id == "logger" for t in b.targets) for b in tree.body):
             out.append(("T30", n))
     return out
@@ -190,6 +194,26 @@ class Rewriter(ast.NodeTransformer):
             return ast.ListComp(elt=ast.Name(id=v, ctx=ast.Load()), generators=[ast.comprehension(target=ast.Name(id=v, ctx=ast.Store()), iter=n.args[0].args[1], ifs=[lam.body], is_async=0)])
         if k == "T20":
             return [ast.If(test=n.value.test, body=[ast.Return(value=n.value.body)], orelse=[]), ast.Return(value=n.value.orelse)]
+        if k == "T40":
+            v = n.comparators[0].value
+            op = n.ops[0]
+            if isinstance(op, ast.Gt) and v == 0:
+                new_op, new_v = ast.NotEq(), 0
+            elif isinstance(op, ast.Gt):
+                new_op, new_v = ast.GtE(), v + 1
+            elif isinstance(op, ast.Eq) and v == 0:
+                new_op, new_v = ast.Lt(), 1
+            elif isinstance(op, ast.NotEq) and v == 0:
+                new_op, new_v = ast.Gt(), 0
+            elif isinstance(op, ast.Lt):
+                new_op, new_v = ast.LtE(), v - 1
+            elif isinstance(op, ast.GtE):
+                new_op, new_v = ast.Gt(), v - 1
+            elif isinstance(op, ast.LtE):
+                new_op, new_v = ast.Lt(), v + 1
+            else:
+                new_op, new_v = op, v
+            return ast.Compare(left=n.left, ops=[new_op], comparators=[ast.Constant(value=new_v)])
         if k == "T30":
             doc = 1 if (n.body and isinstance(n.body[0], ast.Expr) and isinstance(n.body[0].value, ast.Constant) and isinstance(n.body[0].value.value, str)) else 0
             log = ast.Expr(value=ast.Call(func=ast.Attribute(value=ast.Name(id="logger", ctx=ast.Load()), attr="debug", ctx=ast.Load()), args=[ast.Constant(value=f"entering {n.name}")], keywords=[]))
